@@ -74,6 +74,37 @@ class Agent:
                 raise SimulatedCrash()
 
 
+class FreeAgent:
+    """an agent without a controller: gates are passed without waiting; optional crash at one gate, and an
+    optional cut of the linker output (`link_cut = (i, nbytes)`: the i-th link call dies after nbytes)"""
+
+    def __init__(self, nchunks=1, chunk=1 << 30, crash_at=None, link_cut=None):
+        self.nchunks = nchunks
+        self.chunk = chunk
+        self.crash_at = crash_at
+        self.link_cut = link_cut
+        self.counters = {}
+        self.trace = []
+
+    count = Agent.count
+
+    def gate(self, name, k=0):
+        self.trace.append((name, k))
+        if self.crash_at == (name, k):
+            raise SimulatedCrash()
+
+    def run(self, fn):
+        """-> ("ok", value) | ("crashed", gate) | exception propagates"""
+        old = current()
+        _tls.agent = self
+        try:
+            return ("ok", fn())
+        except SimulatedCrash:
+            return ("crashed", self.trace[-1:] or None)
+        finally:
+            _tls.agent = old
+
+
 class Controller:
     def __init__(self):
         self.cv = threading.Condition()
@@ -329,6 +360,10 @@ class _CompilerProxy:
             pass
         fd = os.open(output_filename, os.O_WRONLY | os.O_CREAT | os.O_EXCL, mode)
         try:
+            cut = getattr(ag, "link_cut", None)
+            if cut and cut[0] == i:
+                os.write(fd, data[:max(0, min(len(data) - 1, cut[1] if cut[1] >= 0 else len(data) + cut[1]))])
+                raise SimulatedCrash()
             half = len(data) // 2
             os.write(fd, data[:half])
             ag.gate("w_link_b", i)
